@@ -1016,6 +1016,24 @@ class Gen:
             add('total-size-lt-content-size', 'total 16 via alias, content 32', tc(16, 32, 'alias'), p)
             add('total-size-lt-content-size', 'total 8, content default', tc(8, None), p)
             add('total-size-lt-content-size', 'total 31, content 32', tc(31, 32), p)
+
+            # a barectf-reserved packet context member name stays reserved when the feature that would create
+            # the member is disabled (the C generator selects its templates by member NAME)
+            feat_of = {'timestamp_begin': 'beginning-timestamp-field-type', 'timestamp_end': 'end-timestamp-field-type',
+                       'events_discarded': 'discarded-event-records-counter-snapshot-field-type',
+                       'packet_seq_num': 'sequence-number-field-type'}
+
+            def reserved_off(name, feat):
+                def fn(doc):
+                    set_feature(doc, 'packet', feat, False)
+                    d = tget(doc, p.file, p.path)
+                    x = d.get('packet-context-field-type-extra-members')
+                    if not isinstance(x, list):
+                        x = d['packet-context-field-type-extra-members'] = []
+                    x.append({name: {'field-type': copy.deepcopy(V3_LIT_U8)}})
+                return fn
+            for name in sorted(feat_of):
+                add('reserved-member', name + ' with its feature disabled', reserved_off(name, feat_of[name]), p)
         else:
             def hdr_id(doc, val):
                 d = tget(doc, p.file, p.path)
@@ -1384,10 +1402,18 @@ def select(tasks, ctx, budget_cpu_s):
     if sum(cost(t) for t in tasks) <= budget_cpu_s:
         return tasks
     cells = {}
+    per_constraint = {}
+    for t in tasks:
+        per_constraint[(t['base'], t['constraint'])] = per_constraint.get((t['base'], t['constraint']), 0) + 1
     for t in tasks:
         cell = t.get('cell')
         loc = t['loc'].rsplit('>', 1)[-1] if cell and cell[0] == 'variant' else t['loc']
-        cells.setdefault((t['base'], t['constraint'], loc, cell), []).append(t)
+        # constraints with few operator applications (the cross-field ones: ID field too small, total size
+        # narrower than content size, a feature that cannot be disabled, ...) are kept in EVERY variant: their
+        # variants differ in which of the two fields is explicit / default / an alias, and a slip typically
+        # concerns one of them only
+        var = t['variant'] if per_constraint[(t['base'], t['constraint'])] <= 80 else None
+        cells.setdefault((t['base'], t['constraint'], loc, cell, var), []).append(t)
     keep, rest = [], []
     for k in sorted(cells, key=repr):
         lst = cells[k]
